@@ -238,6 +238,20 @@ def F22():
     return not isinstance(out, Triangle), f"aggregate of the empty triangle returned {out!r}"
 
 
+def F23():
+    from bermuda.utils import bootstrap
+
+    def cell(y, e, p, ep):
+        return mk(D(y, 1, 1), D(y, 12, 31), D(e, 12, 31), {"paid_loss": p, "earned_premium": ep}, cls=CumulativeCell)
+    t = Triangle([cell(2020, 2020, 100, 500), cell(2020, 2021, 150, 500), cell(2021, 2021, 120, 600), cell(2021, 2022, 200, 600)])
+    try:
+        out = bootstrap(t, 1, seed=1, field="paid_loss")
+        ok = len(out) == 1 and all(sorted(c.values) == ["earned_premium", "paid_loss"] for c in out[0])
+        return not ok, "bootstrap with a field selection lost fields"
+    except KeyError as ex:
+        return True, f"bootstrap(t, 1, seed=1, field='paid_loss') raises KeyError {ex}"
+
+
 def G5():
     cs = [mk(D(2003, 4, 1), D(2003, 6, 30), D(2003, 6, 30), {"paid_loss": 1.0}, cls=CumulativeCell),
           mk(D(2003, 7, 1), D(2003, 9, 30), D(2003, 9, 30), {"paid_loss": 2.0}, cls=CumulativeCell)]
